@@ -218,9 +218,10 @@ def run_one(mod, case, ctx):
     twice0 = _util.TWICE[0]
     # one case in four makes all its calls to petl's functions in keyword form (every argument after the first bound by name)
     from petlmon import probes as _probes
-    kwform = int(_util.fp(case)[:2], 16) % 4 == 0
+    h_ = int(_util.fp(case)[:2], 16) % 8
+    kwform = 'kw' if h_ in (0, 4) else ('pos' if h_ == 2 else False)
     _probes.KEYWORD_FORM[0] = kwform
-    kw0 = _probes.KEYWORD_FORM[1]
+    kw0, pos0 = _probes.KEYWORD_FORM[1], _probes.KEYWORD_FORM[2]
     signal.alarm(CASE_WATCHDOG_S)
     try:
         with warnings.catch_warnings():
@@ -245,6 +246,8 @@ def run_one(mod, case, ctx):
         _probes.KEYWORD_FORM[0] = False
         if _probes.KEYWORD_FORM[1] != kw0:
             ctx.seen('petl-calls-made-in-keyword-form', _probes.KEYWORD_FORM[1] - kw0)
+        if _probes.KEYWORD_FORM[2] != pos0:
+            ctx.seen('petl-calls-made-in-positional-form', _probes.KEYWORD_FORM[2] - pos0)
     if res is None:
         return []
     if isinstance(res, dict):
@@ -253,7 +256,7 @@ def run_one(mod, case, ctx):
     if kwform:
         for r_ in res:
             if isinstance(r_, dict):
-                r_.setdefault('call-form', 'arguments after the first bound by keyword')
+                r_.setdefault('call-form', 'arguments after the first bound by keyword' if kwform == 'kw' else 'keyword arguments written positionally in the documented order')
     return res
 
 
